@@ -333,10 +333,12 @@ def _run(case, cl):
                     fault_at.setdefault(idx, f['kind'])
         # sentinel
         n += 1
+        # (every other sentinel is a broadcast: the table of connected
+        # clients is still what it was)
         cl.bus.append((0, pickle.dumps({
             'method': 'emit', 'event': 's', 'data': n, 'namespace': '/',
-            'room': A['sid'], 'skip_sid': None, 'callback': None,
-            'host_id': 'other-host'})))
+            'room': A['sid'] if n % 2 else None, 'skip_sid': None,
+            'callback': None, 'host_id': 'other-host'})))
     mgr.listen_faults = list(listen_faults)
 
     def on_yield(i):
